@@ -240,6 +240,15 @@ def run_config(rng, ctx, scn, CV, watch, index, tracer):
             ctx.violation('graph_report', 'the graph handed to transform_coords differs from the one '
                           'deduce_conversion_graph reports', dict(case, used=sorted(map(repr, used_graph)),
                                                                   reported=sorted(map(repr, reported))))
+    # the explicit-mode factory must agree with the deduced one
+    try:
+        explicit = CV.conversion_graph(origin, target, scatter, mode)
+        if set(map(repr, explicit)) != set(map(repr, reported)) or any(explicit[k] is not reported[k] for k in reported):
+            ctx.violation('graph_report', f'conversion_graph({origin}, {target}, {scatter}, {mode}) differs from the '
+                          'graph deduce_conversion_graph reports for data in that mode', case)
+        ctx.event('explicit_graph')
+    except Exception as e:  # noqa: BLE001
+        ctx.violation('graph_report', f'conversion_graph raised {type(e).__name__}: {e}', case)
     table = G.table_for(origin, target, scatter, mode)
     if graph_key_nodes(reported) != set(table):
         ctx.violation('graph_content', f'reported graph nodes {sorted(graph_key_nodes(reported))} differ from the '
